@@ -304,6 +304,13 @@ class CouplingGraph(Collection[tuple[int, int]]):
         return list(self._adj[qudit])
 
     def __contains__(self, __o: object) -> bool:
+        # Edges are undirected and stored with the smaller qudit first.
+        if isinstance(__o, tuple) and len(__o) == 2:
+            try:
+                if __o[1] < __o[0]:
+                    __o = (__o[1], __o[0])
+            except TypeError:
+                pass
         return self._edges.__contains__(__o)
 
     def __eq__(self, __o: object) -> bool:
